@@ -218,3 +218,95 @@ def small_magnitude(rng, t):
     p = PBITS[t]
     mant = rng.choice([1 << (p - 1), (1 << p) - 1, (1 << (p - 1)) | rng.getrandbits(p - 1), (1 << (p - 1)) + 1])
     return flt(t, mant, rng.choice([128, 128, 127, 127, 126, 120, 1, 2, rng.randrange(1, 129)]), rng.random() < 0.5)
+
+
+# ---- batched, pipelined trace validation ------------------------------------------------
+class Pipeline(object):
+    """Collects events and validates them with a total oracle trace spec in batches; TLC runs (subprocesses) overlap
+    with the generation of the next batch. Verdict handling and all bookkeeping on ctx happen in the calling thread.
+    Same contract as ctx.validate (the trace spec must consume every event, else MachineryError)."""
+
+    def __init__(self, ctx, module, on_reject, count_key, size=150000, parallel=2, strip=('via', 'detail')):
+        import concurrent.futures
+        self.ctx, self.module, self.on_reject, self.count_key = ctx, module, on_reject, count_key
+        self.size, self.strip = size, strip
+        self.buf = []
+        self.n = 0
+        self.seq = 0
+        self.pending = []
+        self.parallel = parallel
+        self.pool = concurrent.futures.ThreadPoolExecutor(max_workers=parallel)
+        self.by = {}
+
+    def add(self, e, group=None):
+        self.buf.append(e)
+        self.n += 1
+        self.ctx.count(self.count_key(e))
+        if group is not None:
+            self.by[group] = self.by.get(group, 0) + 1
+        if len(self.buf) >= self.size:
+            self.flush()
+
+    def _job(self, events, tf):
+        import json, os
+        of = tf + '.out'
+        with open(tf, 'w') as f:
+            json.dump({'header': {}, 'events': [{k: v for k, v in e.items() if k not in self.strip} for e in events]}, f)
+        r = core.run_tlc(self.module, None, env={'TRACE_FILE': tf, 'OUT_FILE': of}, workers=1, ctx=None)
+        res = None
+        if r['ok'] and os.path.exists(of):
+            with open(of) as f:
+                res = json.load(f)
+        for p in (tf, of):
+            if os.path.exists(p):
+                os.remove(p)
+        return r, res
+
+    def flush(self):
+        if not self.buf:
+            return
+        events, self.buf = self.buf, []
+        self.seq += 1
+        fut = self.pool.submit(self._job, events, self.ctx.path('%s_%d.json' % (self.module, self.seq)))
+        self.pending.append((fut, events))
+        while len(self.pending) >= self.parallel + 1:
+            self._collect()
+
+    def _collect(self):
+        fut, events = self.pending.pop(0)
+        r, res = fut.result()
+        ctx = self.ctx
+        ctx.cov['tlc_runs'].append({'module': self.module, 'cfg': self.module + '.cfg', 'generated': r['generated'],
+                                    'distinct': r['distinct'], 'ok': r['ok'], 'wall_s': r['wall'], 'tag': 'trace', 'actions': None})
+        if res is None:
+            raise core.MachineryError('trace validation run of %s failed: %s\n%s' % (self.module, r['error'], r['out'][-3000:]))
+        if res.get('n') != len(events):
+            raise core.MachineryError('trace spec %s consumed %s of %d events' % (self.module, res.get('n'), len(events)))
+        ctx.cov['states'] += r['distinct']
+        ctx.cov['transitions'] += r['generated']
+        ctx.cov['traces_validated_against_impl'] += 1
+        for v in res.get('viol', []):
+            self.on_reject(v[1], events[v[0] - 1])
+
+    def finish(self):
+        self.flush()
+        while self.pending:
+            self._collect()
+        self.pool.shutdown()
+        if self.n == 0:
+            raise core.MachineryError('no events were generated (vacuous run)')
+
+
+class Sink(object):
+    """events.append(e) -> pipeline, keeping the first event of each wanted group as an evidence sample."""
+
+    def __init__(self, ctx, pipe, group, sample_groups=()):
+        self.ctx, self.pipe, self.group = ctx, pipe, group
+        self.want = list(sample_groups)
+
+    def append(self, e):
+        g = self.group(e)
+        if g in self.want:
+            self.want.remove(g)
+            self.ctx.sample({k: v for k, v in e.items() if k != 'detail'}, limit=8)
+        self.pipe.add(e, g)
